@@ -54,7 +54,7 @@ def parse_result(s):
     if s is None or not (s.startswith("ok") or s.startswith("err") or s.startswith("panic")):
         return {"res": "crash", "raw": (s or "")[:300], "counts": None, "repaired": [], "trace": [], "changed": {}}
     parts = s.split(" ")
-    r = {"res": parts[0], "counts": None, "repaired": [], "trace": [], "changed": {}}
+    r = {"res": parts[0], "counts": None, "repaired": [], "trace": [], "changed": {}, "alloc": None}
     for p in parts[1:]:
         k, _, v = p.partition("=")
         if k == "counts":
@@ -63,6 +63,8 @@ def parse_result(s):
             r["repaired"] = [unhx(x).decode("latin-1") for x in v.split(",")] if v else []
         elif k == "trace":
             r["trace"] = v.split(",") if v else []
+        elif k == "alloc":
+            r["alloc"] = int(v)
         elif k == "changed":
             ch = {}
             if v:
@@ -89,6 +91,8 @@ def canon(s, mode):
         return "crash"
     if s.startswith("panic"):
         return "panic"
+    if " alloc=" in s:
+        s = s[:s.rindex(" alloc=")]
     if mode == "real":
         s = s.replace("err:io", "err:other")
     return s
